@@ -307,7 +307,7 @@ hypothesis: `create_time` fails the run on a non-positive speed or length).
 The two premises are premises on the *data*, not on the run: `hlen` (no edge of the network has a
 negative length — graph data, C15 reads lengths as they stand) and `hdel`
 (`RouteSums.DelaysNonneg`: no configured turn delay is negative).  `hdel` holds of every access model
-`TurnDelayAccessModelBuilder` returns (`turn_delay_builder_delays_nonneg`, since /repo 55d6aca; before,
+`TurnDelayAccessModelBuilder` returns (`turn_delay_builder_delays_nonneg`, since /repo c0bacb8; before,
 any number was accepted).  Without it the statement is false:
 `route_monotone_negative_delay_counterexample`. -/
 theorem dijkstra_route_monotone (c : Config α) (hadj : c.AdjConsistent) (hwf : c.wf = some 0)
@@ -906,7 +906,7 @@ theorem delay_table_is_the_configuration (dec : Nat → α) (kvs : List (String 
 
 /-- what `TurnDelayAccessModelBuilder::build` hands over is the file's headings, the configured
 table and unit, and the configured (or default `time`) feature name — nothing else is accepted; and
-no delay of the table is negative (since /repo 55d6aca) -/
+no delay of the table is negative (since /repo c0bacb8) -/
 theorem turn_delay_builder_ok (dec : Nat → α) (cfg : Json) (headerOk : Bool) (file : Option (List HeadLine))
     (b : TurnDelayBuilt α) (h : turnDelayBuild dec cfg headerOk file = .ok b) :
     ∃ lines hs m tu ds, file = some lines ∧ loadHeadings headerOk lines = some hs ∧
